@@ -1605,6 +1605,7 @@ func ExecGroupBy(query *Query, current []any) ([]any, error) {
 		return current, nil
 	}
 	grouped := make(map[*map[string]any][]any)
+	order := make([]*map[string]any, 0)
 	for _, item := range current {
 		innerMap := make(map[string]any)
 		for key := range query.groupDefinition {
@@ -1615,7 +1616,7 @@ func ExecGroupBy(query *Query, current []any) ([]any, error) {
 			innerMap[key] = rs
 		}
 		var ref *map[string]any
-		for group := range grouped {
+		for _, group := range order {
 			isMatch := true
 			for key, value := range innerMap {
 				if (*group)[key] != value {
@@ -1632,11 +1633,13 @@ func ExecGroupBy(query *Query, current []any) ([]any, error) {
 			grouped[ref] = append(grouped[ref], item)
 			continue
 		}
+		order = append(order, &innerMap)
 		grouped[&innerMap] = make([]any, 0)
 		grouped[&innerMap] = append(grouped[&innerMap], item)
 	}
 	slice := make([]any, 0)
-	for key, item := range grouped {
+	for _, key := range order {
+		item := grouped[key]
 		current := make(Map)
 		for innerKey, innerValue := range *key {
 			current[innerKey] = innerValue
